@@ -6,9 +6,10 @@ use grex::RegExpBuilder;
 use grex_sim::model::{guarded, Cfg};
 
 fn main() {
-    let args: Vec<String> = std::env::args().collect();
-    let path = args.get(1).cloned().unwrap_or_default();
-    let cfg = args.get(2).and_then(|s| Cfg::decode(s)).unwrap_or_default();
+    // the path need not be valid UTF-8
+    let args: Vec<std::ffi::OsString> = std::env::args_os().collect();
+    let path = std::path::PathBuf::from(args.get(1).cloned().unwrap_or_default());
+    let cfg = args.get(2).and_then(|s| s.to_str()).and_then(Cfg::decode).unwrap_or_default();
     grex_sim::model::install_quiet_panic_hook();
     let r = guarded(move || {
         let mut b = RegExpBuilder::from_file(path);
